@@ -305,6 +305,7 @@ class Episode(object):
         self.world = World(self.cfg)
         self.clients = []
         self.pending_conn = False
+        self.accept_seq = -1          # spawn_seq of the last accepting worker
         self.lsocks = []
         self.ondemand_markers = set(
             wc.get('marker', wc['name']) for wc in self.cfg.get('watchers', [])
@@ -362,6 +363,8 @@ class Episode(object):
                     conn.close()
                 except (BlockingIOError, OSError):
                     break
+        if self.pending_conn:
+            self.accept_seq = p.spawn_seq
         self.pending_conn = False
 
     def run(self):
